@@ -218,41 +218,54 @@ def openBase (env : Env) (h : ProcH) (base : Base) : M Fd := do
   (verifySameProcfsMnt h fd).onErr (Sys.close fd)
   pure fd
 
+/-- the lookup below an opened base directory, verified on the resulting descriptor -/
+def lookupVerified (env : Env) (h : ProcH) (basedir : Fd) (subpath : Bytes) (oflags : Nat) : M Fd := do
+  let fd ← resolve env h.emulated basedir subpath oflags 0
+  (verifySameProcfsMnt h fd).onErr (Sys.close fd)
+  pure fd
+
+/-- the `ENOENT` retry of `ProcfsHandle::open`: build an unmasked handle and, unless it is
+still masked, look the path up on it with `again` (the recursive call) -/
+def retryUnmasked (env : Env) (again : ProcH → M Fd) (basedir : Fd) (e : Err) : M Fd := do
+  match ← M.try' (newUnmasked env) with
+  | .error _ =>
+    (Sys.close basedir : Prog Unit)
+    throw e
+  | .ok h2 =>
+    if h2.isSubset then
+      -- still masked: it cannot tell more than this handle did
+      (Sys.closeAll [h2.fd, basedir] : Prog Unit)
+      throw e
+    else
+      let r ← M.try' (again h2)
+      (Sys.closeAll [h2.fd, basedir] : Prog Unit)
+      M.ofExcept r
+
+/-- one level of `ProcfsHandle::open`, with the recursive call abstracted as `again` -/
+def openStep (env : Env) (again : ProcH → Nat → M Fd) (h : ProcH) (base : Base) (subpath : Bytes)
+    (oflags : Nat) : M Fd := do
+  let oflags := oflags ||| O_NOFOLLOW
+  let basedir ← openBase env h base
+  let first ← M.try' (lookupVerified env h basedir subpath oflags)
+  match first with
+  | .ok fd =>
+    (Sys.close basedir : Prog Unit)
+    pure fd
+  | .error e =>
+    if h.isSubset ∧ e = .os ENOENT then
+      retryUnmasked env (fun h2 => again h2 oflags) basedir e
+    else
+      (Sys.close basedir : Prog Unit)
+      throw e
+
 /-- `ProcfsHandle::open`.  The `ENOENT` retry on a fresh unmasked handle calls
 `open` again on that handle.  Since the repair of finding F3 the retry happens
 only on a handle that is not itself masked, so the recursion has depth one; the
-model keeps the fuel parameter and `Props/C08.lean` proves it is never exhausted. -/
+model keeps the fuel parameter and `Props/C08.lean` proves it is irrelevant. -/
 def openH (env : Env) : Nat → ProcH → Base → Bytes → Nat → M Fd
   | 0, _, _, _, _ => throw (.outOfFuel "ProcfsHandle::open ENOENT retry")
-  | fuel + 1, h, base, subpath, oflags => do
-    let oflags := oflags ||| O_NOFOLLOW
-    let basedir ← openBase env h base
-    let first ← M.try' (do
-      let fd ← resolve env h.emulated basedir subpath oflags 0
-      (verifySameProcfsMnt h fd).onErr (Sys.close fd)
-      pure fd)
-    match first with
-    | .ok fd =>
-      (Sys.close basedir : Prog Unit)
-      pure fd
-    | .error e =>
-      if h.isSubset ∧ e = .os ENOENT then
-        match ← M.try' (newUnmasked env) with
-        | .error _ =>
-          (Sys.close basedir : Prog Unit)
-          throw e
-        | .ok h2 =>
-          if h2.isSubset then
-            -- still masked: it cannot tell more than this handle did
-            (Sys.closeAll [h2.fd, basedir] : Prog Unit)
-            throw e
-          else
-            let r ← M.try' (openH env fuel h2 base subpath oflags)
-            (Sys.closeAll [h2.fd, basedir] : Prog Unit)
-            M.ofExcept r
-      else
-        (Sys.close basedir : Prog Unit)
-        throw e
+  | fuel + 1, h, base, subpath, oflags =>
+    openStep env (fun h2 fl => openH env fuel h2 base subpath fl) h base subpath oflags
 
 def retryFuel : Nat := 64
 
